@@ -161,6 +161,8 @@ void item_t::parse_tags(const char * p,
            *(b + 1) == '=')) {
         if (const char * e = std::strchr(b, ']')) {
           char buf[256];
+          if (e - b - 1 > 255)
+            throw_(std::runtime_error, _("Date specifier in note is too long"));
           std::strncpy(buf, b + 1, static_cast<std::size_t>(e - b - 1));
           buf[e - b - 1] = '\0';
 
